@@ -111,7 +111,7 @@ def docs(draw, isar=False):
     d.env = env
     d.inc = inc
     d.isar = isar
-    d.style = draw(st.sampled_from([' ', ''])) if not isar else ' '
+    d.style = draw(st.sampled_from([' ', '']))      # blanks around binary operators, or none (A/4/2)
     d.isar_func = isar
     return d
 
@@ -147,18 +147,18 @@ def render_isar(d):
     out = ['<x>']
     for k, n, e, v, o in d.items:
         if k == 'const':
-            out.append('<constant name="%s" value="%s"/>' % (n, _xml(expr.render(e, syn))))
+            out.append('<constant name="%s" value="%s"/>' % (n, _xml(expr.render(e, syn, d.style))))
     ens = [it for it in d.items if it[0] == 'enumerator']
     if ens:
         out.append('<enum name="E0">%s</enum>' % ''.join(
-            '<enum-member name="%s" value="%s"/>' % (n, _xml(expr.render(e, syn))) for k, n, e, v, o in ens))
+            '<enum-member name="%s" value="%s"/>' % (n, _xml(expr.render(e, syn, d.style))) for k, n, e, v, o in ens))
     sizes = [it for it in d.items if it[0] == 'size']
     out.append('<struct name="S0">%s</struct>' % ''.join(
-        '<member name="%s" type="u8"><dimension size="%s"/></member>' % (n, _xml(expr.render(e, syn)))
+        '<member name="%s" type="u8"><dimension size="%s"/></member>' % (n, _xml(expr.render(e, syn, d.style)))
         for k, n, e, v, o in sizes))
     discs = [it for it in d.items if it[0] == 'disc']
     out.append('<union name="U0">%s</union>' % ''.join(
-        '<member name="%s" type="u8" discriminatorValue="%s"/>' % (n, _xml(expr.render(e, syn)))
+        '<member name="%s" type="u8" discriminatorValue="%s"/>' % (n, _xml(expr.render(e, syn, d.style)))
         for k, n, e, v, o in discs))
     out.append('</x>')
     return {'m.xml': '\n'.join(out)}
@@ -292,8 +292,13 @@ def _check_built(d, work, files, nodes, stats, cpp):
                 return ("Python module: %s == %r, integer arithmetic gives %d" % (n, got, v), det)
     s0 = mod.S0()
     for k, n, e, v, o in sizes:
-        if len(getattr(s0, n)) != v:
-            return ("Python: len(S0.%s) == %d, integer arithmetic gives %d" % (n, len(getattr(s0, n)), v), det)
+        try:
+            got_len = len(getattr(s0, n))
+        except Exception as ex:
+            return ("Python: the array S0.%s (extent %d by integer arithmetic) cannot be created: %s: %s" % (
+                n, v, type(ex).__name__, str(ex)[:200]), det)
+        if got_len != v:
+            return ("Python: len(S0.%s) == %d, integer arithmetic gives %d" % (n, got_len, v), det)
     if mod.S0._SIZE != want_size:
         return ("Python: S0._SIZE == %d, the array sizes add up to %d" % (mod.S0._SIZE, want_size), det)
     u0 = mod.U0()
